@@ -74,6 +74,9 @@ def stream_line(rng, s, fam, avg=1):
              vary=1 if (avg <= 1 and rng.random() < 0.2) else 0,
              flipat=-1, fw=1, fh=1,
              camstop=rng.choice([0, 0, 0, 2, 6, 15, 40]))
+    if fam == "complete" and avg <= 1 and rng.random() < 0.25:
+        # the camera's own frame counter has gaps (frames it dropped by itself): the ids it reports travel with the frames
+        d["hwgap"] = rng.randint(0, max(0, n - 1))
     if avg <= 1 and fam in ("complete", "monitor") and rng.random() < 0.2:
         # the camera changes its region of interest in mid-stream (first acquisition): frames of two sizes share the queue -
         # and, with a write delay, one mapped region of the sink; the second shape is no larger than the first
